@@ -297,13 +297,13 @@ def nontrivial(case, res):
 def run(ctx):
     out = common.Outcome()
     out.proof = common.proof_status(FAMILY, PROPFILE)
-    n = ctx.scale(650, 8000)
+    n = ctx.scale(2000, 30000)
     cases = sc.corpus_cases(PID) + [sc.gen_case(ctx.rng, WEIGHTS) for _ in range(n)]
     cases = [c['case'] if 'case' in c else c for c in cases]
     for c in cases:
         if c['kind'] != 'corpus' and ctx.rng.random() < 0.35:
             c['cap'] = ctx.rng.choice([0, 1, 2, 3, 4, 5])
-    ncontr = ctx.scale(150, 2500)
+    ncontr = ctx.scale(500, 8000)
     contr = [gen_contraction(ctx.rng) for _ in range(ncontr)]
     stats = {}
     results, nterms = sc.run_correspondence(out, cases + contr, stats, PID)
@@ -317,11 +317,11 @@ def run(ctx):
             out.failures.extend(oracle_contraction(case, res))
         if nontrivial(case, res):
             seen.add(sc.case_key(case))
-    nnames = ctx.scale(150, 1500)
+    nnames = ctx.scale(300, 3000)
     nval = run_names(ctx, out, nnames, stats)
     f_all, n_all = oracle_all_names()
     out.failures.extend(f_all)
-    ndecl = ctx.scale(40, 300)
+    ndecl = ctx.scale(70, 500)
     for _ in range(ndecl):
         d = gen_decl(ctx.rng)
         stats['decl:' + d['what']] = stats.get('decl:' + d['what'], 0) + 1
